@@ -10,6 +10,7 @@ inductive Kind
   | indexAccessor | parentAccessor | referenceSearchingAccessor | specificationAccessor
   | alternateAccessor | alias | deprecatedAccessor | diagramAccessor
   | attributeAccessor | elementRelationAccessor | requirementsRelationAccessor
+  | associatedCriteriaAccessor     -- extensions/filtering.py: read-only PhysicalAccessor attached by init()
   | other (name : String)
 deriving DecidableEq, Repr
 
